@@ -154,10 +154,23 @@ theorem rchainC_fields {s s' : State} (ho : s'.octets = s.octets) (hc : s'.curso
 
 /-- **the layout invariant with content**, for every compression mode: `b` = the questions and
     records given by the calls that succeeded -/
-structure CLay (P : CMode → Prop) (s : State) (b : Body) : Prop where
-  q : ∃ qs, QChainC s qs 12 s.rrStart ∧ qs.map (·.q) = b.qs ∧ ∀ it ∈ qs, P it.m
+structure MBody where
+  qs : List CMode := []
+  an : List CMode := []
+  ns : List CMode := []
+  ar : List CMode := []
+
+def MBody.add (mb : MBody) (sec : RrSection) (ms : List CMode) : MBody :=
+  match sec with
+  | .answer => { mb with an := mb.an ++ ms }
+  | .authority => { mb with ns := mb.ns ++ ms }
+  | .additional => { mb with ar := mb.ar ++ ms }
+
+/-- `mb`: the compression mode in effect when each question / record was written -/
+structure CLay (P : CMode → Prop) (s : State) (b : Body) (mb : MBody) : Prop where
+  q : ∃ qs, QChainC s qs 12 s.rrStart ∧ qs.map (·.q) = b.qs ∧ (∀ it ∈ qs, P it.m) ∧ qs.map (·.m) = mb.qs
   r : s.cursor ≤ 65535 → ∃ rs, RChainC s rs s.rrStart s.cursor ∧ rs.map (·.r) = b.an ++ b.ns ++ b.ar ∧
-    ∀ it ∈ rs, P it.m
+    (∀ it ∈ rs, P it.m) ∧ rs.map (·.m) = mb.an ++ mb.ns ++ mb.ar
   qd : s.qdcount = b.qs.length
   an : s.ancount = b.an.length
   ns : s.nscount = b.ns.length
@@ -167,24 +180,25 @@ structure CLay (P : CMode → Prop) (s : State) (b : Body) : Prop where
   su : s.sect = .authority → b.ar = []
   /-- the mode in effect is one of the modes of the session -/
   pm : P s.mode
+  ml : mb.an.length = b.an.length ∧ mb.ns.length = b.ns.length ∧ mb.ar.length = b.ar.length
 
-theorem clay_rr12 {s : State} {b : Body} (h : CLay P s b) : 12 ≤ s.rrStart := by
+theorem clay_rr12 {s : State} {b : Body} {mb : MBody} (h : CLay P s b mb) : 12 ≤ s.rrStart := by
   obtain ⟨qs, hq, _⟩ := h.q
   exact qchainC_le hq
 
 /-- the layout only depends on the octets from 12 up to the cursor, the cursor, `rr_start`, the
     recorded label starts, the counts and the section -/
-theorem clay_congr {s s' : State} {b : Body} (h : CLay P s b) (hw : WInv s) (hrr : s.rrStart ≤ s.cursor)
+theorem clay_congr {s s' : State} {b : Body} {mb : MBody} (h : CLay P s b mb) (hw : WInv s) (hrr : s.rrStart ≤ s.cursor)
     (hpre : ∀ i, 12 ≤ i → i < s.cursor → s'.octets[i]? = s.octets[i]?)
     (hc : s'.cursor = s.cursor) (hr : s'.rrStart = s.rrStart)
     (hg : ∀ g ∈ s.gLabels, g ∈ s'.gLabels)
     (hqd : s'.qdcount = s.qdcount) (han : s'.ancount = s.ancount) (hns : s'.nscount = s.nscount)
     (har : s'.arcount = s.arcount) (hp : pend s' = pend s) (hs : s'.sect = s.sect)
-    (hmode : s'.mode = s.mode) : CLay P s' b := by
+    (hmode : s'.mode = s.mode) : CLay P s' b mb := by
   have h12 := clay_rr12 h
   refine ⟨?_, ?_, by rw [hqd]; exact h.qd, by rw [han]; exact h.an, by rw [hns]; exact h.ns,
     by rw [har, hp]; exact h.ar, by rw [hs, hc, hr]; exact h.sq, by rw [hs]; exact h.sa, by rw [hs]; exact h.su,
-    by rw [hmode]; exact h.pm⟩
+    by rw [hmode]; exact h.pm, h.ml⟩
   · obtain ⟨qs, h1, h2⟩ := h.q
     refine ⟨qs, ?_, h2⟩
     rw [hr]
@@ -198,22 +212,24 @@ theorem clay_congr {s s' : State} {b : Body} (h : CLay P s b) (hw : WInv s) (hrr
     exact rchainC_move (lo := 12) (fun it hlo hk hq => rfacts_frame (lo := 12) hq hlo hk hw.g12 hpre
       (by omega) hg) h12 h1
 
-theorem clay_hdrOnly {s s' : State} {b : Body} (h : CLay P s b) (hI : I s) (k : HdrOnly s s') : CLay P s' b :=
+theorem clay_hdrOnly {s s' : State} {b : Body} {mb : MBody} (h : CLay P s b mb) (hI : I s) (k : HdrOnly s s') : CLay P s' b mb :=
   clay_congr h hI.winv hI.inv.rr_hi (fun i hi _ => k.pre i hi) k.cursor k.rrStart
     (fun g hg => by rw [k.gl]; exact hg) k.qd k.an k.ns k.ar (pend_of_isSome k.edns k.tsig) k.sect k.mode
 
-theorem clay_same {s s' : State} {b : Body} (h : CLay P s b) (hI : I s) (e : Same s s') : CLay P s' b :=
+theorem clay_same {s s' : State} {b : Body} {mb : MBody} (h : CLay P s b mb) (hI : I s) (e : Same s s') : CLay P s' b mb :=
   clay_congr h hI.winv hI.inv.rr_hi (fun i _ hi => e.pre i hi) e.cursor e.rrStart
     (fun g hg => by rw [e.gLabels]; exact hg) e.qd e.an e.ns e.ar
     (by unfold pend; rw [e.edns, e.tsig]) e.sect e.mode
 
 /-- records appended to a laid-out message -/
-theorem clay_add_records {s s0 s1 s' : State} {b : Body} {sec : RrSection} {recs : List RRec}
-    (h : CLay P s b) (hcs : changeSection sec s = (.ok (), s0)) (e : Ext s s1)
+theorem clay_add_records {s s0 s1 s' : State} {b : Body} {mb : MBody} {sec : RrSection} {recs : List RRec}
+    (h : CLay P s b mb) (hcs : changeSection sec s = (.ok (), s0)) (e : Ext s s1)
     (hch : s1.cursor ≤ 65535 → ∃ its, RChainC s1 its s.cursor s1.cursor ∧ its.map (·.r) = recs ∧
-      ∀ it ∈ its, P it.m)
+      ∀ it ∈ its, it.m = s.mode)
     (hs' : s' = (setCount sec (getCount sec s1 + recs.length) s1).2) (hsect : s1.sect = toSect sec)
-    (hrr : s.rrStart ≤ s.cursor) : CLay P s' (b.add sec recs) := by
+    (hrr : s.rrStart ≤ s.cursor) (ms : List CMode) (hms : ms = List.replicate recs.length s.mode) :
+    CLay P s' (b.add sec recs) (mb.add sec ms) := by
+  subst hms
   obtain ⟨_, hA, hB⟩ := changeSection_ok_inv sec s s0 hcs
   have hp1 : pend s1 = pend s := by unfold pend; rw [e.edns, e.tsig]
   have ho : s'.octets = s1.octets := by rw [hs']; cases sec <;> rfl
@@ -243,22 +259,55 @@ theorem clay_add_records {s s0 s1 s' : State} {b : Body} {sec : RrSection} {recs
     | additional => simp [Body.add]
   have hmd : s'.mode = s.mode := by
     rw [hs', ← e.mode]; cases sec <;> rfl
-  refine ⟨?_, ?_, ?_, ?_, ?_, ?_, ?_, ?_, ?_, by rw [hmd]; exact h.pm⟩
-  · obtain ⟨qs, h1, h2, hP⟩ := h.q
-    refine ⟨qs, ?_, by cases sec <;> exact h2, hP⟩
+  obtain ⟨ml1, ml2, ml3⟩ := h.ml
+  have hnil : ∀ {l : List CMode} {l' : List RRec}, l.length = l'.length → l' = [] → l = [] := by
+    intro l l' hl hn; rw [hn] at hl; exact List.eq_nil_of_length_eq_zero hl
+  have hmlater : ∀ ms, (mb.add sec ms).an ++ (mb.add sec ms).ns ++ (mb.add sec ms).ar =
+      mb.an ++ mb.ns ++ mb.ar ++ ms := by
+    intro ms
+    cases sec with
+    | answer =>
+      have : b.ns = [] ∧ b.ar = [] := by
+        rcases hA rfl with h1 | h1
+        · exact ⟨(h.sq h1).2.2.1, (h.sq h1).2.2.2⟩
+        · exact h.sa h1
+      simp [MBody.add, hnil ml2 this.1, hnil ml3 this.2]
+    | authority =>
+      have : b.ar = [] := by
+        have hne := hB rfl
+        cases hsx : s.sect with
+        | question => exact (h.sq hsx).2.2.2
+        | answer => exact (h.sa hsx).2
+        | authority => exact h.su hsx
+        | additional => exact absurd hsx hne
+      simp [MBody.add, hnil ml3 this]
+    | additional => simp [MBody.add]
+  refine ⟨?_, ?_, ?_, ?_, ?_, ?_, ?_, ?_, ?_, by rw [hmd]; exact h.pm, ?_⟩
+  · obtain ⟨qs, h1, h2, hP, hM⟩ := h.q
+    refine ⟨qs, ?_, by cases sec <;> exact h2, hP, by cases sec <;> exact hM⟩
     rw [hr, e.rrStart]
     exact qchainC_fields ho hc hg (qchainC_ext e hrr h1)
   · intro hle
     rw [hc] at hle
     have hle0 : s.cursor ≤ 65535 := by have := e.cur; omega
-    obtain ⟨rs, h1, h2, hP⟩ := h.r hle0
+    obtain ⟨rs, h1, h2, hP, hM⟩ := h.r hle0
     obtain ⟨its, h3, h4, hP2⟩ := hch hle
-    refine ⟨rs ++ its, ?_, by rw [List.map_append, h2, h4, hlater], fun it hx => ?_⟩
+    refine ⟨rs ++ its, ?_, by rw [List.map_append, h2, h4, hlater], fun it hx => ?_, ?_⟩
     · rw [hr, hc, e.rrStart]
       exact rchainC_fields ho hc hg (rchainC_append (rchainC_ext e (Nat.le_refl _) h1) h3)
     · rcases List.mem_append.mp hx with hx | hx
       · exact hP it hx
-      · exact hP2 it hx
+      · rw [hP2 it hx]; exact h.pm
+    · rw [List.map_append, hM, hmlater]
+      congr 1
+      have hl : its.length = recs.length := by rw [← h4, List.length_map]
+      rw [← hl]
+      clear h3 h4 hl
+      induction its with
+      | nil => rfl
+      | cons x xs ih =>
+        rw [List.map_cons, List.length_cons, List.replicate_succ, hP2 x List.mem_cons_self,
+          ih (fun it hx => hP2 it (List.mem_cons_of_mem _ hx))]
   · rw [hs']; cases sec <;> (show s1.qdcount = _; rw [e.qd]; exact h.qd)
   · rw [hs']
     cases sec with
@@ -302,6 +351,7 @@ theorem clay_add_records {s s0 s1 s' : State} {b : Body} {sec : RrSection} {recs
       | authority => exact h.su hsx
       | additional => exact absurd hsx hne
     | additional => cases hq
+  · cases sec <;> simp [MBody.add, Body.add, ml1, ml2, ml3]
 
 
 /-! ### records -/
@@ -349,9 +399,9 @@ theorem addRr_itemC (hint : Hint) (owner : WName) (ty cls ttl : Nat) (rd : List 
 
 /-- **`add_*_rr` keeps the layout**, and the record is the one given -/
 theorem clay_addRrOp (sec : RrSection) (hint : Hint) (owner : WName) (ty cls ttl : Nat) (rd : List UInt8)
-    (s s' : State) {b : Body} (hI : I s) (h : CLay P s b) (hwf : owner.WF) (hh : HintOK s hint owner)
+    (s s' : State) {b : Body} {mb : MBody} (hI : I s) (h : CLay P s b mb) (hwf : owner.WF) (hh : HintOK s hint owner)
     (hok : addRrOp sec hint owner ty cls ttl rd s = (.ok (), s')) :
-    CLay P s' (b.add sec [⟨owner, ty, cls, ttlFrom ttl, rd⟩]) := by
+    CLay P s' (b.add sec [⟨owner, ty, cls, ttlFrom ttl, rd⟩]) (mb.add sec [s.mode]) := by
   obtain ⟨s1, s2, h1, h2, _, hs'⟩ := addRrOp_ok_inv sec hint owner ty cls ttl rd s s' hok
   obtain ⟨c1, c2, c3, c4, c5, c6, c7⟩ := changeSection_spec sec s
   have hfr1 := frame_changeSection sec s
@@ -368,7 +418,7 @@ theorem clay_addRrOp (sec : RrSection) (hint : Hint) (owner : WName) (ty cls ttl
     rw [h2] at hk
     rw [hk, this]
   refine clay_add_records (recs := [⟨owner, ty, cls, ttlFrom ttl, rd⟩]) h h1 (Ext.trans hfr1 e2) ?_ hs' hsect
-    hI.inv.rr_hi
+    hI.inv.rr_hi _ rfl
   intro hle
   have hl1 : PtrLogOK s1 := ptrLog_ext hI.log hfr1 (by
     have := changeSection_gPtrs sec s; rw [h1] at this; exact this)
@@ -377,7 +427,7 @@ theorem clay_addRrOp (sec : RrSection) (hint : Hint) (owner : WName) (ty cls ttl
   refine ⟨[it], hch, by simp [hr], fun x hx => ?_⟩
   simp only [List.mem_singleton] at hx
   subst hx
-  rw [hm, hfr1.mode]; exact h.pm
+  rw [hm, hfr1.mode]
 
 /-- an RRset, with content: one item per RDATA -/
 theorem addRrset_itemsC {track : Prop} {s0 : State} (owner : WName) (ty cls ttl : Nat) (hwf : owner.WF) :
@@ -419,10 +469,11 @@ theorem addRrset_itemsC {track : Prop} {s0 : State} (owner : WName) (ty cls ttl 
 
 /-- **`add_*_rrset` keeps the layout**, and the records are those given -/
 theorem clay_addRrsetOp (sec : RrSection) (hint : Hint) (owner : WName) (ty cls ttl : Nat)
-    (rds : List (List UInt8)) (s s' : State) {b : Body} (hI : I s) (h : CLay P s b) (hwf : owner.WF)
+    (rds : List (List UInt8)) (s s' : State) {b : Body} {mb : MBody} (hI : I s) (h : CLay P s b mb) (hwf : owner.WF)
     (hh : HintOK s hint owner)
     (hok : addRrsetOp sec hint owner ty cls ttl rds s = (.ok (), s')) :
-    CLay P s' (b.add sec (rds.map fun rd => ⟨owner, ty, cls, ttlFrom ttl, rd⟩)) := by
+    CLay P s' (b.add sec (rds.map fun rd => ⟨owner, ty, cls, ttlFrom ttl, rd⟩))
+      (mb.add sec (List.replicate rds.length s.mode)) := by
   obtain ⟨s1, s2, n, h1, h2, _, hs'⟩ := addRrsetOp_ok_inv sec hint owner ty cls ttl rds s s' hok
   obtain ⟨c1, c2, c3, c4, c5, c6, c7⟩ := changeSection_spec sec s
   have hfr1 := frame_changeSection sec s
@@ -444,19 +495,19 @@ theorem clay_addRrsetOp (sec : RrSection) (hint : Hint) (owner : WName) (ty cls 
     rw [h2] at hk
     rw [hk, this]
   refine clay_add_records (recs := rds.map fun rd => ⟨owner, ty, cls, ttlFrom ttl, rd⟩) h h1 (Ext.trans hfr1 e2)
-    ?_ (by rw [hs', List.length_map, hn]; simp) hsect hI.inv.rr_hi
+    ?_ (by rw [hs', List.length_map, hn]; simp) hsect hI.inv.rr_hi _ (by rw [List.length_map])
   intro hle
   obtain ⟨its, hch, hl, hms⟩ := addRrset_itemsC (track := s.hv = some []) (s0 := s) owner ty cls (ttlFrom ttl) hwf rds
     hint 0 [] none s1 s2 n ⟨[], _, hr1, hh1⟩ h2 hle
   rw [c6] at hch
-  exact ⟨its, hch, hl, fun x hx => by rw [hms x hx, hfr1.mode]; exact h.pm⟩
+  exact ⟨its, hch, hl, fun x hx => by rw [hms x hx, hfr1.mode]⟩
 
 
 /-! ### the question and the other calls -/
 
-theorem clay_addQuestion (qn : WName) (qt qc : Nat) (s s' : State) {b : Body} (hI : I s) (h : CLay P s b)
+theorem clay_addQuestion (qn : WName) (qt qc : Nat) (s s' : State) {b : Body} {mb : MBody} (hI : I s) (h : CLay P s b mb)
     (hwf : qn.WF) (hok : addQuestion qn qt qc s = (.ok (), s')) :
-    CLay P s' { b with qs := b.qs ++ [⟨qn, qt, qc⟩] } := by
+    CLay P s' { b with qs := b.qs ++ [⟨qn, qt, qc⟩] } { mb with qs := mb.qs ++ [s.mode] } := by
   obtain ⟨s3, hsq, hb, hs'⟩ := addQuestion_ok_inv qn qt qc s s' hok
   obtain ⟨k, hit, hcur, hnm, hby⟩ := addQuestionBody_item qn qt qc s s3 hI.winv hwf hb
   have e : Ext s s3 := by
@@ -470,12 +521,15 @@ theorem clay_addQuestion (qn : WName) (qt qc : Nat) (s s' : State) {b : Body} (h
   have hc : s'.cursor = s3.cursor := by rw [hs']
   have hg : s'.gLabels = s3.gLabels := by rw [hs']
   have hp : pend s' = pend s := by rw [hs']; unfold pend; show _ = _; rw [e.edns, e.tsig]
-  refine ⟨?_, ?_, ?_, ?_, ?_, ?_, ?_, ?_, ?_, by rw [hs']; show P s3.mode; rw [e.mode]; exact h.pm⟩
-  · obtain ⟨qs, h1, h2, hP⟩ := h.q
+  obtain ⟨ml1, ml2, ml3⟩ := h.ml
+  have hnil : ∀ {l : List CMode} {l' : List RRec}, l.length = l'.length → l' = [] → l = [] := by
+    intro l l' hl hn; rw [hn] at hl; exact List.eq_nil_of_length_eq_zero hl
+  refine ⟨?_, ?_, ?_, ?_, ?_, ?_, ?_, ?_, ?_, by rw [hs']; show P s3.mode; rw [e.mode]; exact h.pm, h.ml⟩
+  · obtain ⟨qs, h1, h2, hP, hM⟩ := h.q
     refine ⟨qs ++ [⟨s.cursor, k, s.mode, ⟨qn, qt, qc⟩⟩], ?_, by rw [List.map_append, h2]; rfl, fun x hx => by
       rcases List.mem_append.mp hx with hx | hx
       · exact hP x hx
-      · simp only [List.mem_singleton] at hx; subst hx; exact h.pm⟩
+      · simp only [List.mem_singleton] at hx; subst hx; exact h.pm, by rw [List.map_append, hM]; rfl⟩
     have hq3 : QChainC s3 qs 12 s.cursor := by
       rw [hcr]; exact qchainC_ext e hI.inv.rr_hi h1
     have := qchainC_snoc (x := ⟨s.cursor, k, s.mode, ⟨qn, qt, qc⟩⟩) hq3 ⟨hit, hnm, hby⟩
@@ -483,7 +537,9 @@ theorem clay_addQuestion (qn : WName) (qt qc : Nat) (s s' : State) {b : Body} (h
     rw [hrs]
     exact qchainC_fields ho hc hg this
   · intro hle
-    refine ⟨[], ?_, by rw [hban, hbns, hbar]; rfl, fun _ hx => by cases hx⟩
+    refine ⟨[], ?_, by rw [hban, hbns, hbar]; rfl, (fun _ hx => by cases hx), by
+      show [] = mb.an ++ mb.ns ++ mb.ar
+      rw [hnil ml1 hban, hnil ml2 hbns, hnil ml3 hbar]; rfl⟩
     rw [hs']; exact rfl
   · rw [hs']; show s3.qdcount + 1 = _; rw [e.qd, h.qd, List.length_append]; rfl
   · rw [hs']; show s3.ancount = _; rw [e.an]; exact h.an
@@ -493,13 +549,14 @@ theorem clay_addQuestion (qn : WName) (qt qc : Nat) (s s' : State) {b : Body} (h
   · intro _; exact ⟨hbns, hbar⟩
   · intro _; exact hbar
 
-theorem clay_counts {s s' : State} {b : Body} (h : CLay P s b) (ho : s'.octets = s.octets)
+theorem clay_counts {s s' : State} {b : Body} {mb : MBody} (h : CLay P s b mb) (ho : s'.octets = s.octets)
     (hc : s'.cursor = s.cursor) (hg : s'.gLabels = s.gLabels) (hr : s'.rrStart = s.rrStart)
     (hqd : s'.qdcount = s.qdcount) (han : s'.ancount = s.ancount) (hns : s'.nscount = s.nscount)
     (hs : s'.sect = s.sect) {d : Nat} (hp : pend s' = pend s + d) (har : s'.arcount = s.arcount + d)
-    (hm : P s'.mode) : CLay P s' b := by
+    (hm : P s'.mode) : CLay P s' b mb := by
   refine ⟨?_, ?_, by rw [hqd]; exact h.qd, by rw [han]; exact h.an, by rw [hns]; exact h.ns,
-    by rw [har, hp, h.ar]; omega, by rw [hs, hc, hr]; exact h.sq, by rw [hs]; exact h.sa, by rw [hs]; exact h.su, hm⟩
+    by rw [har, hp, h.ar]; omega, by rw [hs, hc, hr]; exact h.sq, by rw [hs]; exact h.sa, by rw [hs]; exact h.su, hm,
+    h.ml⟩
   · obtain ⟨qs, h1, h2⟩ := h.q
     exact ⟨qs, by rw [hr]; exact qchainC_fields ho hc hg h1, h2⟩
   · intro hle
@@ -507,7 +564,7 @@ theorem clay_counts {s s' : State} {b : Body} (h : CLay P s b) (ho : s'.octets =
     obtain ⟨rs, h1, h2⟩ := h.r hle
     exact ⟨rs, by rw [hr, hc]; exact rchainC_fields ho hc hg h1, h2⟩
 
-theorem clay_setEdns (p : Nat) (s : State) {b : Body} (h : CLay P s b) : CLay P (setEdns p s).2 b := by
+theorem clay_setEdns (p : Nat) (s : State) {b : Body} {mb : MBody} (h : CLay P s b mb) : CLay P (setEdns p s).2 b mb := by
   unfold setEdns
   repeat' split
   all_goals first
@@ -518,8 +575,8 @@ theorem clay_setEdns (p : Nat) (s : State) {b : Body} (h : CLay P s b) : CLay P 
   refine clay_counts (d := 1) h rfl rfl rfl rfl rfl rfl rfl rfl ?_ rfl h.pm
   unfold pend; simp [hn]; omega
 
-theorem clay_setTsig (m : TsigMode) (rr : TsigRr) (s : State) {b : Body} (h : CLay P s b) :
-    CLay P (setTsig m rr s).2 b := by
+theorem clay_setTsig (m : TsigMode) (rr : TsigRr) (s : State) {b : Body} {mb : MBody} (h : CLay P s b mb) :
+    CLay P (setTsig m rr s).2 b mb := by
   unfold setTsig
   repeat' split
   all_goals first
@@ -530,27 +587,27 @@ theorem clay_setTsig (m : TsigMode) (rr : TsigRr) (s : State) {b : Body} (h : CL
   refine clay_counts (d := 1) h rfl rfl rfl rfl rfl rfl rfl rfl ?_ rfl h.pm
   unfold pend; simp [hn]
 
-theorem clay_setMode (m : CMode) (s : State) {b : Body} (h : CLay P s b) (hm : P m) :
-    CLay P (setCompressionMode m s).2 b :=
+theorem clay_setMode (m : CMode) (s : State) {b : Body} {mb : MBody} (h : CLay P s b mb) (hm : P m) :
+    CLay P (setCompressionMode m s).2 b mb :=
   clay_counts (d := 0) h rfl rfl rfl rfl rfl rfl rfl rfl rfl rfl hm
 
-theorem clay_hv (s : State) (v : Option HV) {b : Body} (h : CLay P s b) : CLay P { s with hv := v } b :=
+theorem clay_hv (s : State) (v : Option HV) {b : Body} {mb : MBody} (h : CLay P s b mb) : CLay P { s with hv := v } b mb :=
   clay_counts (d := 0) h rfl rfl rfl rfl rfl rfl rfl rfl rfl rfl h.pm
 
 /-- a fresh writer, put into mode `m` -/
 theorem clay_new (buf : Bytes) (limit : Nat) (s : State) (h : Writer.new buf limit = .ok s) (m : CMode)
-    (hm : P m) : CLay P { s with mode := m } {} := by
-  suffices hh : CLay (fun _ => True) s {} by
-    refine ⟨?_, ?_, hh.qd, hh.an, hh.ns, hh.ar, hh.sq, hh.sa, hh.su, hm⟩
+    (hm : P m) : CLay P { s with mode := m } {} {} := by
+  suffices hh : CLay (fun _ => True) s {} {} by
+    refine ⟨?_, ?_, hh.qd, hh.an, hh.ns, hh.ar, hh.sq, hh.sa, hh.su, hm, ⟨rfl, rfl, rfl⟩⟩
     · obtain ⟨qs, h1, h2, _⟩ := hh.q
       have : qs = [] := by simpa using h2
       subst this
-      exact ⟨[], h1, rfl, fun _ hx => by cases hx⟩
+      exact ⟨[], h1, rfl, (fun _ hx => by cases hx), rfl⟩
     · intro hle
       obtain ⟨rs, h1, h2, _⟩ := hh.r hle
       have : rs = [] := by simpa using h2
       subst this
-      exact ⟨[], h1, rfl, fun _ hx => by cases hx⟩
+      exact ⟨[], h1, rfl, (fun _ hx => by cases hx), rfl⟩
   unfold Writer.new at h
   dsimp only at h
   split at h
@@ -560,9 +617,9 @@ theorem clay_new (buf : Bytes) (limit : Nat) (s : State) (h : Writer.new buf lim
     have h2 : s.cursor = 12 := by rw [← hs]; rfl
     have h3 : s.qdcount = 0 ∧ s.ancount = 0 ∧ s.nscount = 0 ∧ s.arcount = 0 ∧ s.edns = none ∧ s.tsig = none := by
       rw [← hs]; exact ⟨rfl, rfl, rfl, rfl, rfl, rfl⟩
-    refine ⟨⟨[], by rw [h1]; rfl, rfl, fun _ hx => by cases hx⟩,
-      fun _ => ⟨[], by rw [h1, h2]; rfl, rfl, fun _ hx => by cases hx⟩, h3.1, h3.2.1, h3.2.2.1, ?_,
-      fun _ => ⟨by rw [h1, h2], rfl, rfl, rfl⟩, fun _ => ⟨rfl, rfl⟩, fun _ => rfl, trivial⟩
+    refine ⟨⟨[], by rw [h1]; rfl, rfl, (fun _ hx => by cases hx), rfl⟩,
+      fun _ => ⟨[], by rw [h1, h2]; rfl, rfl, (fun _ hx => by cases hx), rfl⟩, h3.1, h3.2.1, h3.2.2.1, ?_,
+      fun _ => ⟨by rw [h1, h2], rfl, rfl, rfl⟩, fun _ => ⟨rfl, rfl⟩, fun _ => rfl, trivial, ⟨rfl, rfl, rfl⟩⟩
     unfold pend
     rw [h3.2.2.2.1, h3.2.2.2.2.1, h3.2.2.2.2.2]
     rfl
@@ -596,15 +653,16 @@ theorem hop_shrink {oct : Bytes} {cur c' a k q : Nat} (hop : Hop oct cur a q) (h
       · omega
     exact .jump (by omega) h1 h2 hp hlt h3 hnp
 
-theorem clay_clearRrs (s : State) {b : Body} (h : CLay P s b) (hI : I s) : CLay P (clearRrs s).2 { qs := b.qs } := by
+theorem clay_clearRrs (s : State) {b : Body} {mb : MBody} (h : CLay P s b mb) (hI : I s) :
+    CLay P (clearRrs s).2 { qs := b.qs } { qs := mb.qs } := by
   simp only [clearRrs, M.modify_apply]
   have hrr := hI.inv.rr_hi
   have hG : ∀ x, (GL s x ∧ x < s.rrStart) → x ∈ s.gLabels.filter (· < s.rrStart) := by
     intro x ⟨h1, h2⟩
     simp only [List.mem_filter, decide_eq_true_eq]
     exact ⟨h1, h2⟩
-  refine ⟨?_, fun _ => ⟨[], rfl, rfl, fun _ hx => by cases hx⟩, h.qd, rfl, rfl, ?_, fun _ => ⟨rfl, rfl, rfl, rfl⟩,
-    fun _ => ⟨rfl, rfl⟩, fun _ => rfl, h.pm⟩
+  refine ⟨?_, fun _ => ⟨[], rfl, rfl, (fun _ hx => by cases hx), rfl⟩, h.qd, rfl, rfl, ?_, fun _ => ⟨rfl, rfl, rfl, rfl⟩,
+    fun _ => ⟨rfl, rfl⟩, fun _ => rfl, h.pm, ⟨rfl, rfl, rfl⟩⟩
   · obtain ⟨qs, h1, h2⟩ := h.q
     refine ⟨qs, ?_, h2⟩
     show QChainC _ qs 12 s.rrStart
@@ -632,9 +690,9 @@ theorem clay_clearRrs (s : State) {b : Body} (h : CLay P s b) (hI : I s) : CLay 
 
 /-! ### templates, whole sessions -/
 
-theorem clay_template {s s' : State} {b : Body} {t : Template} (h : CLay P s b) (hI : I s) (buf : Bytes)
+theorem clay_template {s s' : State} {b : Body} {mb : MBody} {t : Template} (h : CLay P s b mb) (hI : I s) (buf : Bytes)
     (ts : Option Tsig) (hsome : ts.isSome = s.tsig.isSome)
-    (ht : intoTemplate s = .ok t) (h' : tryFromTemplateImpl buf t ts = .ok s') : CLay P s' b := by
+    (ht : intoTemplate s = .ok t) (h' : tryFromTemplateImpl buf t ts = .ok s') : CLay P s' b mb := by
   have hi := hI.inv
   have h1 := hi.hdr; have h2 := hi.cur_av; have h3 := hi.av_lim; have h4 := hi.lim_size
   unfold intoTemplate at ht
@@ -658,16 +716,16 @@ theorem clay_template {s s' : State} {b : Body} {t : Template} (h : CLay P s b) 
         show _ + (if ts.isSome then 1 else 0) = _
         rw [hsome]
 
-theorem clay_retemplate {ss : Session} {b : Body} (h : CLay P ss.w b) (hI : I ss.w) (n : Nat) (fill : UInt8)
+theorem clay_retemplate {ss : Session} {b : Body} {mb : MBody} (h : CLay P ss.w b mb) (hI : I ss.w) (n : Nat) (fill : UInt8)
     (mk : Bytes → Template → Out WriterErr State) (hmk : MkOK mk) :
-    CLay P (retemplate ss n fill mk).2.w b := by
+    CLay P (retemplate ss n fill mk).2.w b mb := by
   obtain ⟨t, ht⟩ := intoTemplate_ok hI.inv
   have htt := intoTemplate_tsig ht
   unfold retemplate
   rw [ht]
   simp only []
   obtain ⟨sf, hsf⟩ := tryFromTemplate_fallback_ok fill hI.inv ht
-  have hlf : CLay P sf b := clay_template h hI _ t.tsig (by rw [htt]) ht hsf
+  have hlf : CLay P sf b mb := clay_template h hI _ t.tsig (by rw [htt]) ht hsf
   cases hm : mk (Array.replicate n fill) t with
   | ok s' =>
     simp only []
@@ -679,16 +737,31 @@ theorem clay_retemplate {ss : Session} {b : Body} (h : CLay P ss.w b) (hI : I ss
   | err e => simp only []; rw [hsf]; exact hlf
   | panic => simp only []; rw [hsf]; exact hlf
 
-theorem clay_liftW {ss : Session} {f : M Unit} {b : Body} (h : CLay P (f ss.w).2 b) : CLay P (liftW ss f).2.w b := by
+theorem clay_liftW {ss : Session} {f : M Unit} {b : Body} {mb : MBody} (h : CLay P (f ss.w).2 b mb) : CLay P (liftW ss f).2.w b mb := by
   unfold liftW
   cases hf : f ss.w with
   | mk r s1 => rw [hf] at h; exact h
 
+/-- the modes of the items a successful call adds: the mode in effect (`cur`) -/
+def mbodyStep (cur : CMode) (mb : MBody) : Op → MBody
+  | .addQuestion _ _ _ => { mb with qs := mb.qs ++ [cur] }
+  | .addRr sec _ _ _ _ _ _ _ => mb.add sec [cur]
+  | .addRrset sec _ _ _ _ _ rds _ => mb.add sec (List.replicate rds.length cur)
+  | .clearRrs => { qs := mb.qs }
+  | _ => mb
+
+/-- the compression mode in effect when each question / record of a session was written (the
+    writer's mode is changed by `set_compression_mode` only) -/
+def mrun (ss : Session) (mb : MBody) : List Op → MBody
+  | [] => mb
+  | op :: ops => mrun (step ss op).2 (if (step ss op).1 = .ok () then mbodyStep ss.w.mode mb op else mb) ops
+
 /-- **every public call keeps the layout**: a successful call adds exactly what it was given, a
     failed call changes nothing — in every compression mode -/
-theorem clay_step (ss : Session) (op : Op) (b : Body) (hI : I ss.w) (h : CLay P ss.w b) (hop : OpOK ss op)
-    (hpm : ∀ m, op = .setMode m → P m) :
-    CLay P (step ss op).2.w (if (step ss op).1 = .ok () then bodyStep b op else b) := by
+theorem clay_step (ss : Session) (op : Op) (b : Body) (mb : MBody) (hI : I ss.w) (h : CLay P ss.w b mb)
+    (hop : OpOK ss op) (hpm : ∀ m, op = .setMode m → P m) :
+    CLay P (step ss op).2.w (if (step ss op).1 = .ok () then bodyStep b op else b)
+      (if (step ss op).1 = .ok () then mbodyStep ss.w.mode mb op else mb) := by
   have hnp := (step_I ss op hI hop).1
   -- failed calls: nothing changed
   by_cases herr : ∃ e, (step ss op).1 = .err e
@@ -703,7 +776,7 @@ theorem clay_step (ss : Session) (op : Op) (b : Body) (hI : I ss.w) (h : CLay P 
     | panic => exact absurd hr hnp
   rw [hok]
   simp only [if_true]
-  have lw : ∀ {f : M Unit}, (∀ s, HdrOnly s (f s).2) → CLay P (liftW ss f).2.w b := fun hf =>
+  have lw : ∀ {f : M Unit}, (∀ s, HdrOnly s (f s).2) → CLay P (liftW ss f).2.w b mb := fun hf =>
     clay_liftW (clay_hdrOnly h hI (hf ss.w))
   cases op with
   | setId v => exact lw (hdrOnly_write _ _ (by show _ + 2 ≤ 12; decide))
@@ -736,7 +809,7 @@ theorem clay_step (ss : Session) (op : Op) (b : Body) (hI : I ss.w) (h : CLay P 
       rw [hq] at hok
       simp only at hok
       subst hok
-      exact clay_hv _ none (clay_addRrOp sec _ o ty cls ttl rd _ s1 hI0 h0 hop.1 hop.2 hq)
+      exact clay_hv _ none (clay_addRrOp sec _ o ty cls ttl rd { ss.w with hv := hv.map (hvGet ss.hvs) } s1 hI0 h0 hop.1 hop.2 hq)
   | addRrset sec hn o ty cls ttl rds hv =>
     simp only [step] at hok ⊢
     rw [withHv_fst] at hok
@@ -748,7 +821,7 @@ theorem clay_step (ss : Session) (op : Op) (b : Body) (hI : I ss.w) (h : CLay P 
       rw [hq] at hok
       simp only at hok
       subst hok
-      exact clay_hv _ none (clay_addRrsetOp sec _ o ty cls ttl rds _ s1 hI0 h0 hop.1 hop.2 hq)
+      exact clay_hv _ none (clay_addRrsetOp sec _ o ty cls ttl rds { ss.w with hv := hv.map (hvGet ss.hvs) } s1 hI0 h0 hop.1 hop.2 hq)
   | clearRrs => exact clay_liftW (clay_clearRrs ss.w h hI)
   | setEdns p => exact clay_liftW (clay_setEdns p ss.w h)
   | setTsig m rr => exact clay_liftW (clay_setTsig m rr ss.w h)
@@ -758,17 +831,17 @@ theorem clay_step (ss : Session) (op : Op) (b : Body) (hI : I ss.w) (h : CLay P 
   | getters => exact h
 
 /-- **for all sequences of calls that respect the contract**, in every compression mode -/
-theorem clay_run (ss : Session) (ops : List Op) (b : Body) (hI : I ss.w) (h : CLay P ss.w b)
+theorem clay_run (ss : Session) (ops : List Op) (b : Body) (mb : MBody) (hI : I ss.w) (h : CLay P ss.w b mb)
     (hr : Respects ss ops) (hpm : ∀ m, Op.setMode m ∈ ops → P m) :
-    CLay P (run ss ops).1.w (bodyRun b ops (run ss ops).2) := by
-  induction ops generalizing ss b with
+    CLay P (run ss ops).1.w (bodyRun b ops (run ss ops).2) (mrun ss mb ops) := by
+  induction ops generalizing ss b mb with
   | nil => exact h
   | cons op ops ih =>
     obtain ⟨hop, hrest⟩ := hr
     obtain ⟨hnp, hI'⟩ := step_I ss op hI hop
-    have hs' := clay_step ss op b hI h hop (fun m hm => hpm m (by rw [hm]; exact List.mem_cons_self))
+    have hs' := clay_step ss op b mb hI h hop (fun m hm => hpm m (by rw [hm]; exact List.mem_cons_self))
     have hpm' : ∀ m, Op.setMode m ∈ ops → P m := fun m hm => hpm m (List.mem_cons_of_mem _ hm)
-    unfold run
+    unfold run mrun
     cases hs : step ss op with
     | mk r ss' =>
       rw [hs] at hnp hI' hrest hs'
@@ -776,12 +849,12 @@ theorem clay_run (ss : Session) (ops : List Op) (b : Body) (hI : I ss.w) (h : CL
       | panic => exact absurd rfl hnp
       | ok u =>
         simp only [] at hs' ⊢
-        have := ih ss' _ hI' (by simpa using hs') hrest hpm'
+        have := ih ss' _ _ hI' (by simpa using hs') hrest hpm'
         cases hrun : run ss' ops with
         | mk ss'' rs => rw [hrun] at this; simpa [bodyRun] using this
       | err e =>
         simp only [] at hs' ⊢
-        have := ih ss' _ hI' (by simpa using hs') hrest hpm'
+        have := ih ss' _ _ hI' (by simpa using hs') hrest hpm'
         cases hrun : run ss' ops with
         | mk ss'' rs => rw [hrun] at this; simpa [bodyRun] using this
 
